@@ -12,7 +12,7 @@ LEVEL = "fault_enumeration"
 RULE = ("each objective call is a free 4-way choice (return, TimeoutError, RuntimeError, a foreign exception: ValueError / FileNotFoundError / ZeroDivisionError / KeyError / OSError depending on the configuration); all patterns over serial batches "
         "of 1 and 2 designs (also two designs at the same point; batches of 3 and 5 with <=3 / <=2 non-default answers) (94 leaves per design incl. exactly 4 and exactly 5 consecutive failures); for one design additionally "
         "re-sampling draws deviating to 0.0 / 1-2^-53 (<=1 deviation per execution; thorough <=2); boxes incl. negative, tiny, huge, with and without declared "
-        "precision; 2 designs on 2 worker threads under the controlled scheduler: every failure pattern (free) x every schedule with <=1 (thorough 2) pre-emptions. Non-trivial = at least one injected failure; "
+        "precision; the same patterns through the scalar bridge (evaluate_scalar, 1 and 2 calls); an exception zoo (every builtin exception class outside the two families, stdlib / numpy / user-defined classes incl. subprocess.TimeoutExpired) as the answer of attempt 1..5 on both paths; 2 designs on 2 worker threads under the controlled scheduler: every failure pattern (free) x every schedule with <=1 (thorough 2) pre-emptions. Non-trivial = at least one injected failure; "
         "distinct = distinct fault/draw sequences per configuration.")
 ASSUMPTIONS = ["the objective's exceptions are raised by the harness wrapper before the objective body runs",
                "in-box tolerance 1e-12 relative, or half the declared precision"]
@@ -21,6 +21,62 @@ FAULTS = ("ok", "TimeoutError", "RuntimeError", "other")
 # "any other exception": one foreign type per configuration (OSError is the parent class of TimeoutError, LookupError /
 # ArithmeticError are common parents of what numerical objectives raise)
 FOREIGN = {"unit": ValueError, "neg_prec": FileNotFoundError, "tiny_huge": ZeroDivisionError, "far_prec": KeyError, "offgrid": OSError}
+
+
+def zoo():
+    """'Any other exception': every builtin exception class outside the TimeoutError / RuntimeError families, exceptions of
+    the standard library and numpy that objectives calling external solvers meet, and user-defined classes."""
+    import builtins, subprocess, queue, json, sqlite3, pickle, zipfile, socket, shutil, configparser, struct, csv, binascii
+    import numpy as np
+    special = {
+        "UnicodeDecodeError": lambda: UnicodeDecodeError("utf-8", b"x", 0, 1, "injected"),
+        "UnicodeEncodeError": lambda: UnicodeEncodeError("utf-8", "x", 0, 1, "injected"),
+        "UnicodeTranslateError": lambda: UnicodeTranslateError("x", 0, 1, "injected"),
+    }
+    out = []
+    for name in sorted(dir(builtins)):
+        cls = getattr(builtins, name)
+        if not (isinstance(cls, type) and issubclass(cls, BaseException)):
+            continue
+        if issubclass(cls, (TimeoutError, RuntimeError)) or issubclass(cls, Warning) or name in ("BaseExceptionGroup", "ExceptionGroup"):
+            continue
+        out.append((name, special.get(name, (lambda c: (lambda: c("injected")))(cls))))
+
+    class UserError(Exception):
+        pass
+
+    class UserTimeout(Exception):          # looks like a timeout, is none of the two listed classes
+        pass
+
+    class UserBase(BaseException):
+        pass
+    out += [
+        ("subprocess.TimeoutExpired", lambda: subprocess.TimeoutExpired("solver", 1.0)),
+        ("subprocess.CalledProcessError", lambda: subprocess.CalledProcessError(1, "solver")),
+        ("queue.Empty", lambda: queue.Empty()), ("queue.Full", lambda: queue.Full()),
+        ("json.JSONDecodeError", lambda: json.JSONDecodeError("injected", "{}", 0)),
+        ("sqlite3.OperationalError", lambda: sqlite3.OperationalError("database is locked")),
+        ("sqlite3.IntegrityError", lambda: sqlite3.IntegrityError("injected")),
+        ("pickle.PicklingError", lambda: pickle.PicklingError("injected")),
+        ("pickle.UnpicklingError", lambda: pickle.UnpicklingError("injected")),
+        ("zipfile.BadZipFile", lambda: zipfile.BadZipFile("injected")),
+        ("socket.gaierror", lambda: socket.gaierror(1, "injected")), ("socket.herror", lambda: socket.herror(1, "injected")),
+        ("shutil.Error", lambda: shutil.Error("injected")), ("shutil.SameFileError", lambda: shutil.SameFileError("injected")),
+        ("configparser.Error", lambda: configparser.Error("injected")), ("struct.error", lambda: struct.error("injected")),
+        ("csv.Error", lambda: csv.Error("injected")), ("binascii.Error", lambda: binascii.Error("injected")),
+        ("numpy.linalg.LinAlgError", lambda: np.linalg.LinAlgError("singular")),
+        ("UserError", lambda: UserError("injected")), ("UserTimeout", lambda: UserTimeout("injected")),
+        ("UserBase", lambda: UserBase("injected")),
+    ]
+    try:
+        from joblib.externals.loky.process_executor import TerminatedWorkerError, BrokenProcessPool
+        if not issubclass(BrokenProcessPool, (RuntimeError, TimeoutError)):
+            out.append(("loky.BrokenProcessPool", lambda: BrokenProcessPool("injected")))
+    except Exception:
+        pass
+    return out
+
+
 CONFIGS = {
     # name: (bounds, param_extra)
     "unit": ([[0.0, 1.0], [-5.0, 5.0]], [{}, {}]),
@@ -55,7 +111,7 @@ class Env:
                 elif c == 2:
                     exc = RuntimeError("injected")
                 elif c == 3:
-                    exc = FOREIGN[cfg]("injected")
+                    exc = env["foreign"]() if env.get("foreign") else FOREIGN[cfg]("injected")
                 env["calls"].append({"ind": individual, "vector": tuple(individual.vector), "outcome": FAULTS[c], "exc": exc})
                 if exc is not None:
                     raise exc
@@ -75,7 +131,7 @@ def in_box(problem, vec):
     return True
 
 
-def body_factory(cfg, nbatch, extreme, seed, same_vector=False):
+def body_factory(cfg, nbatch, extreme, seed, same_vector=False, scalar=False, foreign=None):
     def body(ctx):
         from artap.individual import Individual
         from .c_support import reset_ids
@@ -84,6 +140,7 @@ def body_factory(cfg, nbatch, extreme, seed, same_vector=False):
         env["ctx"] = ctx
         env["calls"] = []
         env["fault_price"] = 1 if nbatch >= 3 else 0
+        env["foreign"] = foreign
         problem.failed = []
         problem.h_log = []
         problem.individuals = []
@@ -101,14 +158,27 @@ def body_factory(cfg, nbatch, extreme, seed, same_vector=False):
                 batch.append(Individual([b[0] + (b[1] - b[0]) * (0.25 + 0.5 * k / max(1, nbatch)) for b in bounds]))
         start = [tuple(i.vector) for i in batch]
         exc = None
+        returned = []
         try:
-            alg.evaluate(batch)
+            if scalar:
+                # the scalar bridge used by the SciPy / NLopt wrappers: one design per call, created by the evaluator itself
+                for v in start:
+                    returned.append(alg.evaluator.evaluate_scalar(list(v)))
+            else:
+                alg.evaluate(batch)
         except BaseException as e:  # noqa
             exc = e
         finally:
             sh.ctx = None
         calls = env["calls"]
         out = []
+        if scalar:
+            batch = list(problem.individuals)
+            if len(batch) != len(returned) + (1 if exc is not None else 0):
+                out.append(("C06:scalar:individuals", "%d scalar calls returned, exception %r, %d individuals attached" % (len(returned), exc, len(batch))))
+            for k, r in enumerate(returned):
+                if k < len(batch) and batch[k].costs and r != batch[k].costs_signed[0]:
+                    out.append(("C06:scalar:returned-value", "call %d returned %r, stored signed cost %r" % (k, r, batch[k].costs_signed[0])))
         desc = "cfg=%s batch=%d outcomes=%r" % (cfg, nbatch, [c["outcome"] for c in calls])
 
         def bad(key, msg):
@@ -145,7 +215,7 @@ def body_factory(cfg, nbatch, extreme, seed, same_vector=False):
                         stopped = "five"
                 elif c["outcome"] == "other":
                     if not last:
-                        bad("C06:foreign-exception-swallowed:%s" % FOREIGN[cfg].__name__, "design %d evaluated again after %s" % (k, FOREIGN[cfg].__name__))
+                        bad("C06:foreign-exception-swallowed:%s" % type(c["exc"]).__name__, "design %d evaluated again after %s" % (k, type(c["exc"]).__name__))
                     stopped = c["exc"]
                 else:  # ok
                     if not last:
@@ -198,15 +268,31 @@ def _shard(shard, col: Collector):
         explore(body, col, bound=shard[1], sub="parallel", on_exec=on_exec2, case_extra={"bound": shard[1]})
         col.sample({"kind": "parallel workers", "designs": 2, "workers": 2, "deviation_bound (faults + pre-emptions)": shard[1]}, 1)
         return
+    if shard[0] == "zoo":
+        # every member of the exception zoo as the answer of attempt 1..5 (after 0..4 transient failures), array and scalar path
+        for name, make in zoo():
+            for scalar in (False, True):
+                for j in range(5):
+                    for t in ((1, 2) if j else (1,)):
+                        choices = [t if i % 2 == 0 else 3 - t for i in range(j)] + [3]
+                        col.case()
+                        col.nontrivial(("zoo", name, scalar, j, t))
+                        ctx, out = run_once(body_factory("unit", 1, False, shard[1], False, scalar, make), choices)
+                        for key, msg in out:
+                            col.violation(key + ":zoo", "zoo", "%s as answer of attempt %d (%s): %s" % (name, j + 1, "scalar" if scalar else "batch", msg),
+                                          {"name": name, "scalar": scalar, "choices": choices, "seed": shard[1]})
+        col.sample({"kind": "exception zoo", "classes": len(zoo()), "attempt": "1..5", "paths": ["batch", "scalar"]}, 1)
+        return
     cfg, nbatch, extreme, bound, seed = shard[:5]
     same_vector = len(shard) > 5 and shard[5]
-    body = body_factory(cfg, nbatch, extreme, seed, same_vector)
+    scalar = len(shard) > 6 and shard[6]
+    body = body_factory(cfg, nbatch, extreme, seed, same_vector, scalar)
 
     def on_exec(ctx, out):
         if any(c != 0 for c in ctx.choices):
             col.nontrivial((cfg, nbatch, extreme, same_vector, tuple(ctx.choices)))
     explore(body, col, bound=bound, sub="faults", on_exec=on_exec,
-            case_extra={"cfg": cfg, "nbatch": nbatch, "extreme": extreme, "seed": seed, "same_vector": same_vector})
+            case_extra={"cfg": cfg, "nbatch": nbatch, "extreme": extreme, "seed": seed, "same_vector": same_vector, "scalar": scalar})
     col.sample({"config": cfg, "batch": nbatch, "resample_extremes": extreme,
                 "example_pattern": ["TimeoutError", "RuntimeError", "RuntimeError", "TimeoutError", "ok"]}, 1)
 
@@ -216,7 +302,11 @@ def replay(sub, case):
         from . import c07
         ctx, out = run_once(c07.body_factory(2, False, False, "free", None), case["choices"])
         return out
-    body = body_factory(case["cfg"], case["nbatch"], case["extreme"], case["seed"], case.get("same_vector", False))
+    if sub == "zoo":
+        make = dict(zoo())[case["name"]]
+        ctx, out = run_once(body_factory("unit", 1, False, case["seed"], False, case["scalar"], make), case["choices"])
+        return out
+    body = body_factory(case["cfg"], case["nbatch"], case["extreme"], case["seed"], case.get("same_vector", False), case.get("scalar", False))
     ctx, out = run_once(body, case["choices"])
     return out
 
@@ -232,6 +322,10 @@ def run(tier, seed):
     shards.append(("unit", 3, False, 3, seed, True))
     shards.append(("neg_prec", 2, False, None, seed))
     shards.append(("parallel", 2 if tier == "thorough" else 1))
+    shards.append(("zoo", seed))
+    shards.append(("unit", 1, False, None, seed, False, True))      # the scalar bridge: every pattern for 1 and 2 calls
+    shards.append(("neg_prec", 2, False, None, seed, False, True))
+    shards.append(("far_prec", 1, True, 1, seed, False, True))
     if tier == "thorough":
         shards.append(("tiny_huge", 2, False, None, seed))
         shards.append(("far_prec", 2, False, None, seed))
